@@ -171,7 +171,7 @@ def enum_small(alphabet, nactors, nops, **objs):
 
 # ------------------------------------------------------------------------------------------- running the real kernel
 
-def run_kdrv(ctx, idx, prog, cfg=(), timeout=20, env=None, wrapper=()):
+def run_kdrv(ctx, idx, prog, cfg=(), timeout=120, env=None, wrapper=()):
     """Run program `prog` on the real kernel; returns the list of trace records (dicts). A missing `end` line is
     turned into end(hang) / end(crash:<rc>)."""
     drv = drivers.get("kdrv")
@@ -211,9 +211,15 @@ def run_kdrv(ctx, idx, prog, cfg=(), timeout=20, env=None, wrapper=()):
     return recs
 
 
-def run_many(ctx, progs, cfg=(), timeout=20, env=None, wrapper=()):
+def run_many(ctx, progs, cfg=(), timeout=60, env=None, wrapper=()):
     drivers.get("kdrv")
-    return vlib.parallel_map(lambda ip: run_kdrv(ctx, ip[0], ip[1], cfg, timeout, env, wrapper), list(enumerate(progs)))
+    res = vlib.parallel_map(lambda ip: run_kdrv(ctx, ip[0], ip[1], cfg, timeout, env, wrapper), list(enumerate(progs)))
+    # a run killed by the wall-clock limit on a busy machine is run again, alone, with a generous limit: only a run that
+    # hangs twice is kept as a hang (the specification never accepts it)
+    for i, t in enumerate(res):
+        if t and t[-1].get("e") == "end" and t[-1].get("how") in ("hang", "crash"):
+            res[i] = run_kdrv(ctx, 500000 + i, progs[i], cfg, 300, env, wrapper)
+    return res
 
 
 # ------------------------------------------------------------------------------------------- TLC: exploration (M)
@@ -277,7 +283,7 @@ def streams(recs, nactors):
     return {"m": m, "a": a}
 
 
-def validate_traces(ctx, progs, traces, tag="tv", timeout=1200, spec="SgKernelTrace.tla", chunk=400, max_rej=6,
+def validate_traces(ctx, progs, traces, tag="tv", timeout=1200, spec="SgKernelTrace.tla", chunk=400, max_rej=10,
                     refs=None, outcomes=None):
     """... outcomes: optional list; receives (index of the trace in `traces`, still_enabled: bool, outcome dict) for every
     execution closed by an xend line (executions explored by simgrid-mc)."""
